@@ -422,6 +422,68 @@ macro_rules! family {
     }};
 }
 
+/// append_or_new histories (EncodeAppend exists in every configuration).
+fn append_items(seed: u64, n: u64, only: Option<u64>, out: &mut dyn FnMut(u64, String)) {
+    use parity_scale_codec::EncodeAppend;
+    fn run<T: Encode + Clone + parity_scale_codec::EncodeLike>(r: &mut Rng, mk: fn(u64) -> T, deque: bool) -> String {
+        let starts: [u64; 12] = [0, 1, 60, 62, 63, 64, 65, 16380, 16382, 16383, 16384, 16390];
+        let start = *r.pick(&starts);
+        let mut blob: Vec<u8> = if start == 0 && r.chance(1, 2) { Vec::new() } else { (0..start).map(mk).collect::<Vec<T>>().encode() };
+        let mut count = start;
+        let mut log = format!("start={}", start);
+        for _ in 0..r.range(1, 4) {
+            let b = match r.below(6) {
+                0 => 0,
+                1 => 1,
+                2 => r.range(2, 9),
+                3 => (64u64.saturating_sub(count)).max(1),
+                4 => (16384u64.saturating_sub(count)).max(1).min(17000),
+                _ => r.range(0, 70),
+            };
+            let items: Vec<T> = (count..count + b).map(mk).collect();
+            let b0 = blob.clone();
+            let res = std::panic::catch_unwind(std::panic::AssertUnwindSafe(|| if deque { <VecDeque<T> as EncodeAppend>::append_or_new(b0.clone(), items.clone()) } else { <Vec<T> as EncodeAppend>::append_or_new(b0.clone(), &items[..]) }));
+            let res = match res {
+                Ok(r) => r,
+                Err(_) => {
+                    log.push_str(&format!(" +{}=>panic", b));
+                    break;
+                },
+            };
+            match res {
+                Ok(v) => {
+                    blob = v;
+                    count += b;
+                    let mut h: u64 = 0xcbf2_9ce4_8422_2325;
+                    fnv(&mut h, &blob);
+                    log.push_str(&format!(" +{}=>len{}:{:016x}:{}", b, blob.len(), h, hex(&blob[..blob.len().min(6)])));
+                },
+                Err(_) => {
+                    log.push_str(&format!(" +{}=>err", b));
+                    break;
+                },
+            }
+        }
+        log
+    }
+    for i in 0..n {
+        if let Some(o) = only {
+            if o != i {
+                continue;
+            }
+        }
+        let mut r = Rng::for_case(seed, "append", i);
+        let deque = r.chance(1, 2);
+        let line = match r.below(4) {
+            0 => format!("u8 {}", run::<u8>(&mut r, |x| x as u8, deque)),
+            1 => format!("u32 {}", run::<u32>(&mut r, |x| (x as u32).wrapping_mul(2654435761), deque)),
+            2 => format!("unit {}", run::<()>(&mut r, |_| (), deque)),
+            _ => format!("string {}", run::<String>(&mut r, |x| "ab".repeat((x % 4) as usize), deque)),
+        };
+        out(i, format!("enc:{}", line.replace(' ', "_")));
+    }
+}
+
 struct Sel {
     fam: Option<String>,
     ty: Option<String>,
@@ -448,6 +510,20 @@ fn main() {
         String, [u8; 4], [u16; 7], [u32; 5], [bool; 3], [String; 2], Box<u32>, Box<Vec<u8>>, Rc<String>, Arc<[u16; 4]>, Box<[u32; 6]>,
         core::time::Duration, core::ops::Range<u32>, core::num::NonZeroU16, parity_scale_codec::OptionBool,
     );
+    if sel.fam.as_deref().map_or(true, |f| f == "append") {
+        let mut h: u64 = 0xcbf2_9ce4_8422_2325;
+        let mut items = 0u64;
+        append_items(seed, n * 4, sel.idx, &mut |i, line| {
+            items += 1;
+            fnv(&mut h, line.as_bytes());
+            if mode != "digest" {
+                println!("ITEM append history {} {}", i, line);
+            }
+        });
+        if mode == "digest" {
+            println!("FAMILY append types=4 items={} digest={:016x}", items, h);
+        }
+    }
     family!(@with bytebuf_line, "bytebuf", sel, seed, n, mode; ByteBuf, (u8, ByteBuf, u16), Vec<ByteBuf>, Option<ByteBuf>, (ByteBuf, ByteBuf));
     #[cfg(feature = "derive")]
     family!("derive", sel, seed, n, mode; derived::S1, derived::E1, derived::N1, Vec<derived::E1>, Option<Box<derived::S1>>, Box<derived::N1>, [derived::E1; 2]);
